@@ -137,7 +137,9 @@ class XLoop(vloop.VLoop):
             due = tuple(sorted(self._label(h) for h in self._scheduled if not h._cancelled and h._when <= self._vtime))
             timers = tuple(sorted((round(h._when - self._vtime, 9), self._label(h)) for h in self._scheduled
                                   if not h._cancelled and h._when > self._vtime))
-            return (live, pend, due, timers)
+            # where every live task is (await chain): a wake-up label alone does not say which await it resumes
+            pcs = tuple((t.get_name(), t.cancelling(), pc(t)) for t in self._vf_tasks if not t.done())
+            return (live, pend, due, timers, pcs)
         if not self.fifo_plumbing:
             return super().sched_state()
         # task steps as a set (every order of them is explored), plumbing callbacks in their FIFO order
